@@ -5,6 +5,9 @@ import (
 	"encoding/binary"
 	"fmt"
 	"sort"
+	"strings"
+
+	"github.com/cosmos/cosmos-sdk/codec"
 
 	sdk "github.com/cosmos/cosmos-sdk/types"
 	"github.com/cosmos/cosmos-sdk/types/query"
@@ -626,4 +629,54 @@ func (w *World) walk(pr PageReq, n int, fetch func(*query.PageRequest) ([]string
 			req = &query.PageRequest{Offset: uint64(len(all)), Limit: limit, Reverse: pr.Reverse, CountTotal: pr.CountTotal}
 		}
 	}
+}
+
+// LoadGenesis derives the model from an aol genesis section (string keys "owner/topic/...").
+func (m *AolModel) LoadGenesis(cdc codec.JSONCodec, raw []byte) error {
+	var gs aoltypes.GenesisState
+	if err := cdc.UnmarshalJSON(raw, &gs); err != nil {
+		return err
+	}
+	for k, t := range gs.Topics {
+		parts := strings.Split(k, "/")
+		o, ok := addrBytes(parts[0])
+		if !ok || len(parts) != 2 {
+			return fmt.Errorf("bad topic key %q", k)
+		}
+		m.Topics[tkey(o, parts[1])] = &AolTopic{Owner: o, Name: parts[1], Desc: t.Description, Writers: map[string]*AolWriter{}}
+	}
+	for k, wr := range gs.Writers {
+		parts := strings.Split(k, "/")
+		o, ok1 := addrBytes(parts[0])
+		wa, ok2 := addrBytes(parts[2])
+		t := m.Topic(o, parts[1])
+		if !ok1 || !ok2 || t == nil {
+			return fmt.Errorf("bad writer key %q", k)
+		}
+		t.Writers[string(wa)] = &AolWriter{wr.Moniker, wr.Description, wr.NanoTimestamp}
+	}
+	type rk struct {
+		t   *AolTopic
+		off uint64
+		r   *aoltypes.Record
+	}
+	var recs []rk
+	for k, r := range gs.Records {
+		parts := strings.Split(k, "/")
+		o, ok := addrBytes(parts[0])
+		t := m.Topic(o, parts[1])
+		var off uint64
+		if _, err := fmt.Sscanf(parts[2], "%d", &off); err != nil || !ok || t == nil {
+			return fmt.Errorf("bad record key %q", k)
+		}
+		recs = append(recs, rk{t, off, r})
+	}
+	sort.Slice(recs, func(i, j int) bool { return recs[i].off < recs[j].off })
+	for _, x := range recs {
+		if uint64(len(x.t.Records)) != x.off {
+			return fmt.Errorf("generated genesis has a record gap")
+		}
+		x.t.Records = append(x.t.Records, AolRecord{Key: x.r.Key, Value: x.r.Value, Writer: x.r.WriterAddress, Nano: x.r.NanoTimestamp})
+	}
+	return nil
 }
